@@ -141,7 +141,9 @@ class SyncedDict(SyncedCollection, MutableMapping):
                             self._validate({key: new_value})
                         self._data[key] = self._from_base(new_value, parent=self)
                     else:
-                        if new_value == existing:
+                        # Equal values of a different type (1, True, 1.0) are
+                        # different JSON data and must be replaced.
+                        if type(new_value) is type(existing) and new_value == existing:
                             continue
                         if (
                             new_value is not None
